@@ -378,6 +378,29 @@ pub fn e1_families(thorough: bool, dims: &[usize], periodic_opts: &[bool]) -> Ve
     for &dim in dims {
         for &periodic in periodic_opts {
             for b in &boxes {
+                // periodic boxes are closed: a generator may sit exactly on an *upper* wall (it is the same point of the
+                // torus as the one on the lower wall, but another coordinate value: `loc()`, centroids and shifts must be
+                // reported relative to the position that was passed in). The upper-closed variant {1..m}/m of each lattice,
+                // one size smaller.
+                if periodic {
+                    let (l, name, k) = match dim {
+                        3 => (L3A, "L3aU", if thorough { 3 } else { 2 }),
+                        2 => (L2, "L2U", if thorough { 3 } else { 2 }),
+                        _ => (L1, "L1U", 3),
+                    };
+                    let step = b.width / (l.m as f64);
+                    let pool: Vec<DVec3> = lattice_points(l, b, dim, true)
+                        .into_iter()
+                        .map(|mut p| {
+                            for ax in 0..dim {
+                                let v = comp(p, ax) + comp(step, ax);
+                                set_comp(&mut p, ax, v);
+                            }
+                            p
+                        })
+                        .collect();
+                    fams.push(Family { dim, periodic, bx: *b, alpha: name.to_string(), pool, k });
+                }
                 let mut add = |alpha: &str, l: Option<Lattice>, k: usize| {
                     let pool = match l {
                         Some(l) => lattice_points(l, b, dim, periodic),
